@@ -917,6 +917,13 @@ pub fn tool_convention_customs() -> Vec<(&'static str, Vec<u8>)> {
         ("coremodules", vec![0]),
         ("coreinstances", vec![0]),
         ("corestack", vec![0, 1, b't', 0]),
+        // names that merely contain ".debug" (LLVM object files: relocations *for* a debug section)
+        ("reloc..debug_info", vec![6, 0]),
+        ("rust.debug_gdb_scripts", vec![1, 2, 3]),
+        ("my.debug-map", vec![9]),
+        ("x.debug", vec![]),
+        ("name.", vec![1]),
+        ("producers2", vec![0]),
     ]
 }
 pub const CUSTOM_SIZES: [usize; 4] = [0, 1, 127, 128];
@@ -1305,6 +1312,19 @@ pub fn names_family(tier: Tier) -> Vec<Member> {
             (elem $seg (table $imp_t) (i32.const 0) func $imp_f $own_f) (data $dat (memory $own_m) (i32.const 0) "x")
             (func $own_f (export "f") (type $ty) (local $l i32) (global.set $own_g (global.get $imp_g)) (i32.load8_u $imp_m (i32.const 0)) (drop)
               (table.size $own_t) (drop) (call $imp_f (local.get 0))))"#),
+        ("several functions carry the same name", r#"(module (func $a (@name "helper") (export "e0") (i32.const 1) (drop))
+            (func $big (@name "big") (export "e1") (i32.const 1) (drop) (i32.const 2) (drop) (i32.const 3) (drop) (i32.const 4) (drop))
+            (func $b (@name "helper") (export "e2") (i32.const 2) (drop))
+            (func $c (@name "helper") (export "e3") (i32.const 3) (drop) (i32.const 3) (drop))
+            (func $d (@name "other") (export "e4") (i32.const 4) (drop)))"#),
+        ("same name on entities of every kind", r#"(module (type $t (@name "same") (func)) (type $t2 (@name "same") (func (param i32)))
+            (import "env" "f" (func $if (@name "same") (type $t))) (func $f1 (@name "same") (export "f1") (type $t2) (local $l (@name "same") i32) (local $l2 (@name "same") i64) (call $if) (global.set $g2 (local.get 0)))
+            (func $f2 (@name "same") (export "f2") (type $t) (drop (global.get $g1)) (drop (table.size $t2x)) (drop (memory.size $m2)))
+            (global $g1 (@name "same") i32 (i32.const 1)) (global $g2 (@name "same") (mut i32) (i32.const 2))
+            (table $t1x (@name "same") (export "t1") 1 funcref) (table $t2x (@name "same") 2 funcref)
+            (memory $m1 (@name "same") (export "m1") 1) (memory $m2 (@name "same") 2)
+            (data $d1 (@name "same") (memory $m1) (i32.const 0) "a") (data $d2 (@name "same") (memory $m2) (i32.const 0) "b")
+            (elem $e1 (@name "same") (table $t1x) (i32.const 0) func $f1) (elem $e2 (@name "same") (table $t2x) (i32.const 0) func $f2))"#),
         ("only imported entities are named", r#"(module (import "env" "tbl" (table $imp_t 4 funcref)) (import "env" "mem" (memory $imp_m 1)) (import "env" "g" (global $imp_g i32))
             (table 2 funcref) (memory 1) (global (mut i32) (i32.const 1))
             (func (export "f") (result i32) (global.set 1 (global.get $imp_g)) (i32.load8_u $imp_m (i32.const 0)) (drop) (table.size 1) (drop) (table.size $imp_t)))"#),
@@ -1537,10 +1557,21 @@ pub fn build_leb_imp(n: usize, big: usize, size: usize, nop_variant: bool, extra
 /// not start with its first instruction), 2 gives two groups of unused locals (walrus drops them:
 /// every function shrinks)
 pub fn build_leb_full(n: usize, big: usize, size: usize, nop_variant: bool, extra_unexported: bool, imports: usize, locals_mode: u8) -> Vec<u8> {
+    build_leb_full_x(n, big, size, nop_variant, extra_unexported, imports, locals_mode, false)
+}
+
+/// as `build_leb_full`; with `imports_as_empty_functions` every import is a local function with an
+/// empty body instead, at the same function index (what `replace_imported_func` with an empty
+/// closure is expected to produce, up to where the code section puts it)
+pub fn build_leb_full_x(n: usize, big: usize, size: usize, nop_variant: bool, extra_unexported: bool, imports: usize, locals_mode: u8, imports_as_empty_functions: bool) -> Vec<u8> {
     let mut mb = MB::default();
     let t0 = mb.ty(&[], &[]);
     for k in 0..imports {
-        mb.imports.push(("env".into(), format!("imp{}", k), Desc::Func(t0)));
+        if imports_as_empty_functions {
+            mb.func(t0, vec![], vec![END]);
+        } else {
+            mb.imports.push(("env".into(), format!("imp{}", k), Desc::Func(t0)));
+        }
     }
     for i in 0..n {
         let marker = 7000 + i as i32;
@@ -1603,6 +1634,20 @@ pub fn build_leb_dead_at(n: usize, size: usize, locals_mode: u8, dead_pos: usize
         dead(&mut mb);
     }
     mb.build()
+}
+
+/// modules with unreachable entities of every kind (reach members) that also carry one of the
+/// tool-convention custom sections: a raw custom section is not a root and not a reason to skip anything
+pub fn reach_customs_family() -> Vec<Member> {
+    let mut out = vec![];
+    for edges in [&[][..], &[0usize, 16, 22][..]] {
+        for (k, (n, pl)) in tool_convention_customs().into_iter().enumerate() {
+            let mut wasm = build_reach(edges);
+            append_custom(&mut wasm, n, &pl);
+            out.push(Member { family: "reach+customs", coords: format!("reach {:?} + custom #{} {:?}", edges, k, n), wasm });
+        }
+    }
+    out
 }
 
 /// append a custom section to a binary
@@ -2103,6 +2148,56 @@ pub fn minimal_family() -> Vec<Member> {
         ("memory-max-65535-pages", r#"(module (memory 1 65535) (func (export "f") (i32.const 8373) (drop) (memory.size) (drop)))"#),
         ("table-max-u32", r#"(module (table 1 4294967295 funcref) (func (export "f") (i32.const 8374) (drop) (table.size 0) (drop)))"#),
         ("imported-table-max-u32", r#"(module (import "e" "t" (table 1 4294967295 funcref)) (func (export "f") (i32.const 8375) (drop)))"#),
+        // a local, unexported table reached first through one of its active segments (elem.drop names it);
+        // its other active segment and the function only that one lists are just as live
+        ("table-reached-through-active-segment-first", r#"(module (type $t (func (result i32))) (table $tb 4 funcref)
+            (func $a (type $t) (call_indirect $tb (type $t) (i32.const 1))) (func $b (type $t) (i32.const 8380))
+            (elem $e1 (table $tb) (i32.const 0) func $a) (elem $e2 (table $tb) (i32.const 1) func $b)
+            (func (export "u") (result i32) (elem.drop $e1) (call $a)))"#),
+        ("table-mentioned-only-by-its-active-segments-one-dropped", r#"(module (table $t 2 funcref) (func $a (i32.const 8395) (drop)) (func $b (i32.const 8396) (drop))
+            (elem $e1 (table $t) (i32.const 0) func $a) (elem $e2 (table $t) (i32.const 1) func $b) (func (export "run") (elem.drop $e1)))"#),
+        ("table-reached-through-active-segment-then-call-indirect", r#"(module (type $t (func (result i32))) (table $tb 4 funcref)
+            (func $a (type $t) (call_indirect $tb (type $t) (i32.const 1))) (func $b (type $t) (i32.const 8397))
+            (elem $e1 (table $tb) (i32.const 0) func $a) (elem $e2 (table $tb) (i32.const 1) func $b)
+            (func (export "u") (result i32) (call $a) (elem.drop $e1)))"#),
+        ("table-reached-through-active-segment-user-found-via-ref-func-global", r#"(module (type $t (func (result i32))) (table $tb 4 funcref)
+            (func $h (type $t) (call_indirect $tb (type $t) (i32.const 1))) (func $b (type $t) (i32.const 8398)) (func $c (type $t) (i32.const 8399))
+            (global $gh (export "gh") funcref (ref.func $h))
+            (elem $e1 (table $tb) (i32.const 0) func $c) (elem $e2 (table $tb) (i32.const 1) func $b)
+            (func (export "u") (elem.drop $e1)))"#),
+        ("table-reached-through-table-init-of-active-segment", r#"(module (type $t (func (result i32))) (table $tb 4 funcref) (table $other 4 funcref)
+            (func $a (type $t) (call_indirect $tb (type $t) (i32.const 1))) (func $b (type $t) (i32.const 8381))
+            (elem $e1 (table $tb) (i32.const 0) func $a) (elem $e2 (table $tb) (i32.const 1) func $b)
+            (func (export "u") (result i32) (table.init $other $e1 (i32.const 0) (i32.const 0) (i32.const 0)) (call $a)))"#),
+        // a 64-bit table with active segments, used through call_indirect
+        ("table64-with-active-segments", r#"(module (type $t (func (result i32))) (table $tb (export "tb") i64 4 funcref)
+            (func $a (type $t) (i32.const 8382)) (func $b (type $t) (i32.const 8383))
+            (elem $e1 (table $tb) (i64.const 0) func $a) (elem $e2 (table $tb) (i64.const 2) func $b $a)
+            (func (export "u") (param i64) (result i32) (call_indirect $tb (type $t) (local.get 0))))"#),
+        ("table64-local-unexported-with-active-segment", r#"(module (type $t (func (result i32))) (table $tb i64 4 funcref)
+            (func $a (type $t) (i32.const 8384))
+            (elem $e1 (table $tb) (i64.const 1) func $a)
+            (func (export "u") (param i64) (result i32) (call_indirect $tb (type $t) (local.get 0))))"#),
+        // active data segments that end in zero bytes: overlapping an earlier segment, or reaching past the end of memory
+        ("data-zero-tail-overlaps-earlier-segment", r#"(module (memory (export "mem") 1) (data (i32.const 0) "\01\02\03\04\05\06") (data (i32.const 2) "\09\00\00")
+            (func (export "f") (param i32) (result i32) (i32.const 8385) (drop) (i32.load8_u (local.get 0))))"#),
+        ("data-zero-tail-only", r#"(module (memory (export "mem") 1) (data (i32.const 16) "\00\00\00\00") (data (i32.const 32) "ab\00")
+            (func (export "f") (param i32) (result i32) (i32.const 8386) (drop) (i32.load8_u (local.get 0))))"#),
+        ("data-zero-tail-past-end-of-memory", r#"(module (memory (export "mem") 1) (data (i32.const 65534) "\07\08\00")
+            (func (export "f") (param i32) (result i32) (i32.const 8387) (drop) (i32.load8_u (local.get 0))))"#),
+        ("data-zero-tail-imported-memory", r#"(module (import "env" "mem" (memory 1)) (data (i32.const 4) "\07\00\00")
+            (func (export "f") (param i32) (result i32) (i32.const 8388) (drop) (i32.load8_u (local.get 0))))"#),
+        // copies between two memories / two tables of the same index width
+        ("memory-copy-between-two-32-bit-memories", r#"(module (memory $a (export "a") 1) (memory $b (export "b") 1) (data (memory $a) (i32.const 0) "abcd") (data (memory $b) (i32.const 0) "wxyz")
+            (func (export "f") (param i32) (result i32) (i32.const 8389) (drop) (memory.copy $b $a (i32.const 8) (i32.const 0) (i32.const 4)) (i32.load8_u $b (local.get 0))))"#),
+        ("table-copy-between-two-tables", r#"(module (type $t (func (result i32))) (table $a 4 funcref) (table $b 4 funcref) (func $x (type $t) (i32.const 8390)) (elem (table $a) (i32.const 0) func $x)
+            (func (export "f") (param i32) (result i32) (table.copy $b $a (i32.const 1) (i32.const 0) (i32.const 1)) (call_indirect $b (type $t) (local.get 0))))"#),
+        // a declared local whose only mention is a local.tee
+        ("local-only-teed", r#"(module (func (export "f") (param i32) (result i32) (local i64) (local i32) (i32.const 8391) (drop) (drop (local.tee 1 (i64.const 5))) (local.tee 2 (local.get 0))))"#),
+        // unused local groups (dropped on emission) in functions with else-less ifs (an `else` may be added): byte counts can cancel out
+        ("unused-local-and-two-else-less-ifs", r#"(module (func (export "f") (param i32) (local i64) (i32.const 8392) (drop) (if (local.get 0) (then (drop (i32.const 1)))) (if (local.get 0) (then (drop (i32.const 2)))) (drop (i32.const 3))))"#),
+        ("two-unused-local-groups-and-four-else-less-ifs", r#"(module (func (export "f") (param i32) (local i64) (local f32) (i32.const 8393) (drop) (if (local.get 0) (then (drop (i32.const 1)))) (if (local.get 0) (then (drop (i32.const 2)))) (if (local.get 0) (then (nop))) (if (local.get 0) (then (drop (i32.const 4)))) (drop (i32.const 3))))"#),
+        ("unused-local-and-one-else-less-if", r#"(module (func (export "f") (param i32) (local i64) (i32.const 8394) (drop) (if (local.get 0) (then (drop (i32.const 1)))) (drop (i32.const 3))))"#),
         ("imported-table-named", r#"(module (import "env" "tbl" (table $t 4 funcref)) (table $own 2 funcref) (func $f (export "f") (result i32) (i32.const 8358) (drop) (i32.add (table.size $t) (table.size $own))))"#),
         // two functions whose operator counts in the input order them differently from their counts
         // after a round trip (nops and dead code disappear, an else-less if may gain an `else`)
